@@ -16,7 +16,9 @@ LEVEL = 'exploration'
 RULE = ('model-first generation: draw a logic, draw a total reference model M for it (1-3 worlds obeying the frame '
         'condition, 1-3 constants, values for 3 atoms, F/1, G/2 and, in the many-valued logics, = and E! as ordinary '
         'predicates; classical: identity an equivalence respected by every extension), draw ~8 sentences of depth <= 3 '
-        'from the fragment (uninterpreted sentences get drawn values), evaluate them in M with vf/refsem.py and form an '
+        'from the fragment (uninterpreted sentences get drawn values; in a third of the cases four of them are instances of one drawn '
+        'top-level form -- operator / quantifier / modal operator, plain or negated -- so that every (logic, form, side) cell is met by many '
+        'models per run; logic D, the only one with the Serial rule, gets a modal-heavy share of its own), evaluate them in M with vf/refsem.py and form an '
         'argument whose premises are designated at w0 and whose conclusion is not (second stream: a standard valid form '
         'weakened in one or two places, with a countermodel found among drawn models); x {group optim} x {rank optim} x '
         'tie-break order seed. Oracle: M is a countermodel by construction, so the tableau must not report valid; and, '
@@ -190,6 +192,13 @@ def run_shard(shard, acc):
             prof = gen.Profile(consts=tuple(M.consts), w_atom=5, w_pred=1, w_ident=0, w_neg=4, w_assert=0, w_bin=3, w_modal=12, w_quant=0,
                                max_depth=4, natoms=2)
         sents = [data.draw(gen.sentence(prof)) for _ in range(data.draw(st.integers(4, 8)))]
+        shaped = data.draw(st.integers(0, 2)) == 0
+        if shaped:
+            # rule-first: several instances of one drawn top-level form, so that every (logic, form, side) cell is met by
+            # many models per run -- the forms are what the rules are written for
+            shapes = gen.shapes_for(prof)
+            shape = shapes[data.draw(st.integers(0, len(shapes) - 1))]
+            sents = [data.draw(gen.shaped_sentence(prof, shape)) for _ in range(4)] + sents[:3]
         des, und = [], []
         for s in sents:
             (des if M.designates(s, 0) else und).append(s)
@@ -231,6 +240,7 @@ def run_shard(shard, acc):
         if any('Identity' in r for r in rules): cls.append('uses-identity-rule')
         if info['capped']: cls.append('tracker-capped')
         if ident_heavy: cls.append('identity-heavy-profile')
+        if shaped: cls.append('rule-first')
         acc.case((logic, case['premises'], case['conclusion'], case['group'], case['rank'], case['order']),
                  nontrivial=True, classes=cls,
                  sample=prover.case_str(case) + f' => {info["outcome"]} in {info["steps"]} steps; countermodel {M.describe()}')
